@@ -34,6 +34,13 @@ def _single_return(f):
     rets = [r for r in walk_no_nested(f.node) if isinstance(r, ast.Return)]
     if len(rets) != 1 or rets[0].value is None:
         raise AnalysisError("%s: single return expected" % f.qualname)
+    paths = dtable.extract(f.node, opaque_loops=True)
+    if len(paths) == 1 and paths[0].end == "return" and paths[0].value:
+        try:
+            new = ast.Return(value=ast.parse(paths[0].value, mode="eval").body)
+            return ast.fix_missing_locations(ast.copy_location(new, rets[0]))
+        except SyntaxError:
+            pass
     return rets[0]
 
 
